@@ -190,20 +190,14 @@ theorem string_prefix_guard_unsound_witness :
 theorem confined (c : Cfg) (s : Site) (hl : LinksOk c.links) (hs : SiteOk s) (hv : c.repaired = true) :
     ∀ p ∈ run c s, Allowed (outDir c) (graphDir c) p := by
   intro p hp
-  unfold run at hp
-  split at hp
-  · cases hp
-  · exact writeOps_allowed c s hl hs (Or.inl hv) p hp
+  exact runW_allowed _ c s hl hs (Or.inl hv) p hp
 
 /-- **Confinement, code as it is.** The same, provided no page's `copy_subdir`
     item is absolute or climbs out of the output directory (`noEscape`, decidable). -/
 theorem confined_partial (c : Cfg) (s : Site) (hl : LinksOk c.links) (hs : SiteOk s)
     (hne : noEscape s = true) : ∀ p ∈ run c s, Allowed (outDir c) (graphDir c) p := by
   intro p hp
-  unfold run at hp
-  split at hp
-  · cases hp
-  · exact writeOps_allowed c s hl hs (Or.inr hne) p hp
+  exact runW_allowed _ c s hl hs (Or.inr hne) p hp
 
 /-- **Witness of the defect.** Project in `/p`, `output_dir: doc`, top page with
     `copy_subdir: ../../x` (source directory containing `a`): the unrepaired run
@@ -222,6 +216,116 @@ theorem copy_subdir_escape_witness :
   · simp [graphDir, c] at hg
   · cases hk
 
+/-- **Nothing that was left in the old output directory survives the clean-up.** For every table of
+    symbolic links lying in the old output directory - at any depth, under any name (also the names
+    the run is about to create: `page`, `media`, `css`, `index.html` ...), pointing to files or
+    directories anywhere on disk - none is still there when the run starts to write, provided every
+    removal succeeds. Rests on the generated constant `wipeWholeTree` (the clean-up of
+    `Documentation.writeout` is `shutil.rmtree(out_dir)` on the output directory itself, which unlinks
+    links without following them): emptying the directory entry by entry instead breaks this proof. -/
+theorem wipe_leaves_no_link (c : Cfg) (hin : ∀ l ∈ c.old, outDir c <+: l.loc) (hk : ∀ l ∈ c.old, l.kept = false) :
+    survivors c = [] := by
+  have hw : Generated.C19.wipeWholeTree = true := by decide
+  unfold survivors
+  rw [hw]
+  exact survivorsW_whole c hin hk
+
+/-- ... hence the place where the OS performs each attempt is the place its path names: the physical
+    run equals the lexical one (the assumption under which `norm` models the OS's resolution). -/
+theorem physical_eq_lexical (c : Cfg) (s : Site) (hin : ∀ l ∈ c.old, outDir c <+: l.loc)
+    (hk : ∀ l ∈ c.old, l.kept = false) : runPhys c s = run c s := by
+  have hw : Generated.C19.wipeWholeTree = true := by decide
+  have hany : c.old.any (fun l => (outDir c).isPrefixOf l.loc && l.kept) = false := by
+    rw [List.any_eq_false]
+    intro l hl
+    simp [hk l hl]
+  unfold runPhys runPhysW run
+  rw [hw]
+  split
+  · rename_i h; rw [h]
+  · rename_i w r h
+    rw [h, hany, survivorsW_whole c hin hk, map_physical_nil]
+    simp
+
+/-- **Confinement of the physical run.** With any symbolic links whatsoever left in the old output
+    directory, every attempt of the run - resolved through whatever links are still there - targets
+    the output directory or the graph directory. Excluded, as explicit hypotheses: a link whose
+    removal fails while the run goes on regardless (`kept`; finding C19-wipe-failure-ignored, witness
+    below - not excluded once a failing `mkdir` of the output directory ends the run, generated constant
+    `wipeFailureFatal`), and links lying in a graph directory outside the output directory, which is
+    never cleaned (`hin`; finding C19-graphdir-stale-link, witness below). -/
+theorem confined_physical_partial (c : Cfg) (s : Site) (hl : LinksOk c.links) (hs : SiteOk s)
+    (hv : c.repaired = true ∨ noEscape s = true) (hin : ∀ l ∈ c.old, outDir c <+: l.loc)
+    (hk : Generated.C19.wipeFailureFatal = true ∨ ∀ l ∈ c.old, l.kept = false) :
+    ∀ p ∈ runPhys c s, Allowed (outDir c) (graphDir c) p := by
+  have hw : Generated.C19.wipeWholeTree = true := by decide
+  have hall := runW_allowed Generated.C19.graphSkipsLinks c s hl hs hv
+  intro p hp
+  unfold runPhys runPhysW at hp
+  rw [hw] at hp
+  split at hp
+  · cases hp
+  · rename_i w r h
+    rw [h] at hall
+    split at hp
+    · apply hall p
+      rcases List.mem_cons.1 hp with rfl | hp
+      · simp
+      · exact List.mem_cons_of_mem _ (List.mem_of_mem_take hp)
+    · rename_i hc
+      have hk' : ∀ l ∈ c.old, l.kept = false := by
+        rcases hk with hf | hk
+        · intro l hl'
+          rw [hf] at hc
+          simp only [Bool.true_and, Bool.not_eq_true, List.any_eq_false, Bool.and_eq_true, not_and] at hc
+          have := hc l hl' (List.isPrefixOf_iff_prefix.2 (hin l hl'))
+          simpa using this
+        · exact hk
+      rw [survivorsW_whole c hin hk', map_physical_nil] at hp
+      exact hall p hp
+
+/-- **Why the old output must be removed as a whole.** Project in `/p`, `output_dir: doc`, one static
+    page; the old `doc/` holds `page -> /v` (a directory elsewhere), `index.html -> /v/f` and, inside a
+    real sub-directory, `lists/l -> /v`. Emptying `doc/` entry by entry (`is_dir()` follows the link,
+    `rmtree` refuses to remove one) leaves `page`, and the page is then written to `/v/index.html`;
+    the other two links are removed either way. After `rmtree(doc)` every attempt lands below `/p/doc`. -/
+theorem entrywise_wipe_escape_witness :
+    let c : Cfg := { dir := ["p".toList], out := "doc".toList, outKind := 2,
+                     old := [⟨["p".toList, "doc".toList, "page".toList], ["v".toList], true, false⟩,
+                             ⟨["p".toList, "doc".toList, "index.html".toList], ["v".toList, "f".toList], false, false⟩,
+                             ⟨["p".toList, "doc".toList, "lists".toList, "l".toList], ["v".toList], true, false⟩] }
+    let s : Site := { pages := [{ loc := ".".toList, stem := "index".toList, files := [], copies := [] }] }
+    (survivorsW false c).map (·.loc) = [["p".toList, "doc".toList, "page".toList]] ∧
+    ⟨.wr, ["v".toList, "index.html".toList]⟩ ∈ runPhysW false false false c s ∧
+    survivorsW true c = [] ∧
+    (runPhysW true false false c s).all (fun p => (outDir c).isPrefixOf p.path) = true := by
+  decide
+
+/-- **Witness of the defect "a failed clean-up is ignored".** Same project; the removal of
+    `doc/page -> /v` fails (`kept`). `rmtree(..., ignore_errors=True)` swallows that, the failing
+    `mkdir` of the still existing `doc/` is only reported, and the page is written to `/v/index.html`.
+    If the failing `mkdir` ends the run (`fatal`), nothing is attempted outside `/p/doc`. -/
+theorem failed_wipe_escape_witness :
+    let c : Cfg := { dir := ["p".toList], out := "doc".toList, outKind := 2,
+                     old := [⟨["p".toList, "doc".toList, "page".toList], ["v".toList], true, true⟩] }
+    let s : Site := { pages := [{ loc := ".".toList, stem := "index".toList, files := [], copies := [] }] }
+    ⟨.wr, ["v".toList, "index.html".toList]⟩ ∈ runPhysW true false false c s ∧
+    (runPhysW true true false c s).all (fun p => (outDir c).isPrefixOf p.path) = true := by
+  decide
+
+/-- **Witness of the defect "a link left in the graph directory is written through".** `graph_dir: g`
+    (outside `doc/`, never cleaned) holds `n.svg -> /v/f`; saving the graph `n` lets graphviz write
+    `/v/f`. If `_create_image_file` skips graphs whose files are symbolic links (`skipLinks`), every
+    attempt lands below `/p/doc` or `/p/g`. -/
+theorem graphdir_stale_link_witness :
+    let c : Cfg := { dir := ["p".toList], out := "doc".toList, gdir := some "g".toList, graph := true,
+                     old := [⟨["p".toList, "g".toList, "n.svg".toList], ["v".toList, "f".toList], false, false⟩] }
+    let s : Site := { graphs := ["n".toList] }
+    ⟨.wr, ["v".toList, "f".toList]⟩ ∈ runPhysW true false false c s ∧
+    (runPhysW true false true c s).all (fun p => (outDir c).isPrefixOf p.path ||
+      ["p".toList, "g".toList].isPrefixOf p.path) = true := by
+  decide
+
 /-- **Crash points / injected faults.** Whatever subsequence of the attempts is
     actually executed - a run aborted at any operation, or continuing after a
     caught failure - it is confined. -/
@@ -229,11 +333,7 @@ theorem crash_closed (c : Cfg) (s : Site) (hl : LinksOk c.links) (hs : SiteOk s)
     (hv : c.repaired = true ∨ noEscape s = true) (l : List Prim) (h : l.Sublist (run c s)) :
     ∀ p ∈ l, Allowed (outDir c) (graphDir c) p := by
   intro p hp
-  have hp' := h.subset hp
-  unfold run at hp'
-  split at hp'
-  · cases hp'
-  · exact writeOps_allowed c s hl hs hv p hp'
+  exact runW_allowed _ c s hl hs hv p (h.subset hp)
 
 /-- ... in particular every prefix of the run (abort at the n-th operation, all n). -/
 theorem prefix_closed (c : Cfg) (s : Site) (hl : LinksOk c.links) (hs : SiteOk s)
@@ -249,7 +349,7 @@ theorem refusal_iff (c : Cfg) : refuses c = true ↔ ∃ d ∈ srcDirsN c, outDi
 
 /-- ... and the refusal precedes the first file-system operation: such a run does nothing. -/
 theorem refusal_no_ops (c : Cfg) (s : Site) (h : ∃ d ∈ srcDirsN c, outDir c <+: d) : run c s = [] := by
-  simp [run, (refuses_iff c).2 h]
+  simp [run, runW, (refuses_iff c).2 h]
 
 /-- **Inputs are read-only.** A path `q` that is not inside the output directory
     nor inside the graph directory (a source file, the project file, the page or
